@@ -837,6 +837,9 @@ class Manager:
         if self._timer is not None:
             self._timer.cancel()
             self._timer = None
+        # a transport is not closed while it has a producer (and a paused
+        # one is resumed instead of closing), so let go of it first
+        self._outbound.disconnecting()
         self._connection.disconnect()  # let connection_lost do cleanup
 
     @m.output()
